@@ -26,10 +26,12 @@ St(j) == [config |-> ToSet(j.config), hist |-> FullHist(j.hist), status |-> j.st
           ctx |-> j.ctx, output |-> j.output, err |-> j.err]
 OutOf(jo) == [i \in 1..Len(jo) |->
                 [k |-> jo[i][1], a |-> jo[i][2], b |-> jo[i][3], c |-> ToSet(jo[i][4]), d |-> ToSet(jo[i][5])]]
-StepOf(j) == [op |-> j.op, ev |-> j.ev, evs |-> IF "evs" \in DOMAIN j THEN j.evs ELSE <<>>, gv |-> j.gv]
+StepOf(j) == [op |-> j.op, ev |-> j.ev, evs |-> IF "evs" \in DOMAIN j THEN j.evs ELSE <<>>, gv |-> j.gv,
+              faults |-> IF "faults" \in DOMAIN j THEN ToSet(j.faults) ELSE {}]
 
 Unpack(s) == [config |-> s.config, hist |-> s.hist, status |-> s.status, ctx |-> s.ctx,
-              queue |-> <<>>, out |-> <<>>, err |-> NoErr, rd |-> 0, output |-> s.output, gv |-> <<>>]
+              queue |-> <<>>, out |-> <<>>, err |-> NoErr, rd |-> 0, output |-> s.output, gv |-> <<>>,
+              faults |-> {}, halt |-> FALSE]
 
 ImplStep(pre, step, eng) ==
   LET e0 == IF eng = "pure" THEN "pure" ELSE eng
@@ -37,7 +39,8 @@ ImplStep(pre, step, eng) ==
       p0 == IF eng = "pure" /\ step.op = "send"
             THEN [Unpack(pre) EXCEPT !.hist = [p \in HistOwners |-> {}], !.output = NONE]
             ELSE Unpack(pre)
-  IN CASE step.op = "start" -> StartStep(p0, step.gv, e0)
+  IN CASE step.op = "start" -> StartStep([p0 EXCEPT !.faults = step.faults], step.gv, e0)
+       [] step.op = "send" /\ step.faults # {} -> SendStep([p0 EXCEPT !.faults = step.faults], step.ev, step.gv, e0)
        [] step.op = "send" /\ eng = "pure" /\ pre.status # "running" -> Unpack(pre)
        [] step.op = "send"  -> SendStep(p0, step.ev, step.gv, e0)
        [] step.op = "can"   -> CanStep(p0, step.ev, step.gv)
@@ -82,7 +85,10 @@ Verdict ==
                 C11 |-> On("C11", C11(pre, step, post, out, eng)),
                 C06 |-> On("C06", C06(pre, step, post, out)),
                 C20 |-> On("C20", C20(pre, step, post, out)),
-                C13 |-> On("C13", C13(pre, step, post, out))]]
+                C13 |-> On("C13", C13(pre, step, post, out)),
+                C07 |-> On("C07", C07Abort(pre, step, post, out) \cup
+                             (IF "clean" \in DOMAIN j /\ step.faults # {}
+                              THEN C07Pair(St(j.clean.post), OutOf(j.clean.out), post, out, step.faults) ELSE {}))]]
 
 Emit == PrintT(ToJson(Verdict))
 =============================================================================
